@@ -13,6 +13,15 @@ CLAIMED = {
    note="Not decided by contracts: string->AST (participle parser, driven by reflection over struct tags) - well-formedness of parser output is a precondition (wf_*). "
         "Spec decision: '!=' on an absent attribute is false (the code's reading). "+TRUST,
    design="4/C07"),
+ "C18": dict(
+   text="Deductive proof of the functions the count/match guarantee rests on (faults/description.go, faults/set.go): Description.match returns true exactly for "
+        "'count > 0, operation equal, every injected parameter present and equal' (map-range loop with an inductive invariant, all maps, unbounded); Set.match returns the first "
+        "matching descriptor or nil iff none matches; Set.Check never fails a non-matching call and changes no counter then, fires the handler exactly once when something matches, "
+        "decrements exactly one matching counter by one, and (racing variant: every atomic access may observe an arbitrary value) never calls the handler with a negative remaining count "
+        "and at most once; Set.Add preserves the representation invariant. A pure counting lemma links 'decrement returned >= 0' to min(N, calls).",
+   note="Schedules are not explored: atomic.AddInt64/LoadInt64 linearisability is an assumed axiom; the racing variant models interference by havocking the counter before every atomic access. "
+        "Set.prune/Set.Current (listing after exhaustion) are not under contract yet. "+TRUST,
+   design="4/C18"),
 }
 REASONS = {}
 def reason(pid):
